@@ -4,12 +4,15 @@ The agent gets only the property text and a scratch worktree; nothing from /veri
 import sys
 pid = sys.argv[1]
 n = sys.argv[2] if len(sys.argv) > 2 else "two"
+# optional: explicit names for the changes (a later round must not overwrite an earlier one) and an extra generic hint
+names = sys.argv[3].split(",") if len(sys.argv) > 3 else None
+hint = sys.argv[4] if len(sys.argv) > 4 else ""
 print(f"""You are helping evaluate a verification framework by seeding realistic defects into a Rust library.
 Work ONLY inside the git worktree /tmp/seedwt-{pid} (a checkout of the crate librqbit-utp, a uTP / BEP-29 reliable transport over UDP). Do NOT read or write anything under /verif or /repo. There is no network: always pass --offline to cargo.
 
 The property to break is described in /tmp/seedout/{pid}.property.json - read it first; its `anchors` point at the relevant code. Read the code it points at.
 
-Task: produce {n} independent, realistic source changes (name them a, b, ...; different mechanisms and different code sites) to the library's non-test code under src/ such that EACH change:
+Task: produce {n} independent, realistic source changes (name them {", ".join(names) if names else "a, b, ..."}; different mechanisms and different code sites{"; " + hint if hint else ""}) to the library's non-test code under src/ such that EACH change:
 1. still compiles and the existing test suite still passes completely, unedited: `cd /tmp/seedwt-{pid} && cargo test --workspace --no-fail-fast --offline` (76 tests pass on the original tree; run it with your change - all must still pass; a few tests are #[ignore]d, leave them);
 2. breaks the property - but only under something specific: a particular interleaving, a loss/fault at a particular point, a multi-step sequence of operations, an unusual input or configuration, or two cooperating sites that each look fine alone. NOT something ordinary use would expose at once (not "every transfer is corrupted");
 3. looks like a plausible programmer mistake or refactoring slip (off-by-one, wrong variable, dropped condition, reordered statements, missed wake-up, stale value ...) and is small (a few lines);
@@ -17,7 +20,7 @@ Task: produce {n} independent, realistic source changes (name them a, b, ...; di
 
 For each change give a demonstration: a new test inside the crate (a new file or an appended test module; internals are private so it has to live in the crate; you may use src/test_util and copy the patterns of src/stream_dispatch/tests/*.rs, src/socket.rs tests, src/e2e_tests) that PASSES on the unmodified tree and FAILS with the change applied. Verify both directions by actually running it.
 
-Deliverables - write into /tmp/seedout/{pid}a/, /tmp/seedout/{pid}b/, ... :
+Deliverables - write into {", ".join(f"/tmp/seedout/{pid}{x}/" for x in names) if names else f"/tmp/seedout/{pid}a/, /tmp/seedout/{pid}b/, ..."} :
 - patch.diff : `git diff` of the library change ONLY (must apply with `git apply` to the original tree at HEAD);
 - demo.diff  : `git diff` adding ONLY the demonstration test(s) (must apply to the original tree independently of patch.diff);
 - notes.md   : which clause of the property it breaks, what exactly it needs in order to manifest (the trigger), and the exact commands you ran with their outcomes (suite passes with the patch; demo passes without it and fails with it).
